@@ -17,7 +17,8 @@
    Abandoned = the server neither reads from nor closes the socket any more: the outcome
    when validateHandshake raises a BaseException-only class (SystemExit, KeyboardInterrupt):
    on the thread server the worker thread dies with the socket open; on the multiplex server
-   the exception ends the daemon's request loop, so EVERY other connection is abandoned.
+   the exception ends the daemon's request loop, so EVERY other connection that was still open is abandoned
+   (connections the daemon had already closed stay closed).
 
    The set of registered objects is part of the state: the application registers and
    unregisters objects (by id, by object, or a weakly registered object is garbage collected)
@@ -286,7 +287,10 @@ Definition conns := nat -> cstate.
 Definition init : conns := fun _ => NotHandshaken.
 Definition upd (st : conns) (c : nat) (s : cstate) : conns :=
   fun c' => if Nat.eqb c' c then s else st c'.
-Definition all_abandoned : conns := fun _ => Abandoned.
+(* the daemon's request loop has ended: what was open is no longer served (nor closed); what the daemon had already
+   closed stays closed — its peer sees EOF whether or not the loop is alive *)
+Definition abandon_open (st : conns) : conns :=
+  fun c => match st c with Closed => Closed | _ => Abandoned end.
 
 Definition step_conn (g : cfg) (sty : servertype) (reg : registry) (st : conns) (e : cevent) : conns * list out :=
   let c := e_conn e in
@@ -294,7 +298,7 @@ Definition step_conn (g : cfg) (sty : servertype) (reg : registry) (st : conns) 
   | Closed | Abandoned => (st, [])
   | NotHandshaken =>
       let '(s', o, kill) := step_first g sty reg e in
-      (upd (if kill then all_abandoned else st) c s', o)
+      (upd (if kill then abandon_open st else st) c s', o)
   | Accepted => let '(s', o) := step_later g sty reg c (e_in e) in (upd st c s', o)
   end.
 
